@@ -19,9 +19,9 @@
   * C03_rename_symmetric: function symbols have pairwise distinct, non-empty GI names (`NameEnv`; the
     attributes carry names, not symbols) and every function carries at most one rename-to request
     (one block per symbol).  It is a theorem about the AST state.  For the WRITTEN attributes the full
-    statement is refuted by `C03_rename_written_counterexample` (chain a→b→c, reported finding);
-    `C03_rename_written_partial` adds the hypothesis that no rename-to target carries a rename-to
-    request itself.
+    statement is refuted by `C03_rename_written_counterexample` (`a: (rename-to a)`, reported finding);
+    `C03_rename_written_partial` adds the hypothesis that no function is asked to rename to itself.
+    (Chains a→b→c are refused in either processing order since /repo 9b2e314 and are covered.)
   * C03_mapping_*: the annotation carries the option it needs (otherwise the real code raises
     IndexError, which the model reproduces as `.error`), and for `version` the element kind is one
     whose writer calls `_append_version` (`WKind.hasVersion`: everything except alias and
@@ -511,29 +511,23 @@ def C03_rename_written_full : Prop :=
     ∀ s t fn gn, nameOf s = some fn → nameOf t = some gn →
       (wShadows (renameFold nameOf reqs) s = some gn ↔ wShadowedBy (renameFold nameOf reqs) t = some fn)
 
-/-- witness: `a: (rename-to b)` then `b: (rename-to c)`.  c is written shadowed-by="b", b is written
-    shadowed-by="a" and NOT shadows="c". -/
+/-- witness: `a: (rename-to a)`.  The function ends up with shadows = shadowed_by = its own name;
+    the writer's `elif` emits shadowed-by="a" and NOT shadows="a". -/
 theorem C03_rename_written_counterexample : ¬ C03_rename_written_full := by
   intro h
-  have := h abcNames abcNames_env [("a".toList, "b".toList), ("b".toList, "c".toList)] (by decide)
-    "b".toList "c".toList "b".toList "c".toList (by decide) (by decide)
+  have := h abcNames abcNames_env [("a".toList, "a".toList)] (by decide)
+    "a".toList "a".toList "a".toList "a".toList (by decide) (by decide)
   revert this
   decide
 
-/-- the written attributes are symmetric when no rename-to target carries a rename-to itself -/
+/-- the written attributes are symmetric when no function is asked to rename to itself — chains
+    (`a: (rename-to b)`, `b: (rename-to c)`) included, in either processing order -/
 theorem C03_rename_written_partial (nameOf : Str → Option Str) (env : NameEnv nameOf) (reqs : List (Str × Str))
-    (hnd : (reqs.map (·.1)).Nodup) (hdisj : ∀ r ∈ reqs, ∀ r' ∈ reqs, r.2 ≠ r'.1) :
+    (hnd : (reqs.map (·.1)).Nodup) (hself : ∀ r ∈ reqs, r.1 ≠ r.2) :
     ∀ s t fn gn, nameOf s = some fn → nameOf t = some gn →
       (wShadows (renameFold nameOf reqs) s = some gn ↔ wShadowedBy (renameFold nameOf reqs) t = some fn) := by
   have inv := renameFold_inv env reqs hnd
-  have dom := renameFold_dom_aux nameOf reqs RState.init (reqs.map (·.1)) (reqs.map (·.2))
-    (by intro s v h; simp [RState.init] at h) (by intro t w h; simp [RState.init] at h)
-    (fun r hr => List.mem_map.mpr ⟨r, hr, rfl⟩) (fun r hr => List.mem_map.mpr ⟨r, hr, rfl⟩)
-  have noboth : ∀ s v w, (renameFold nameOf reqs).shadows s = some v → (renameFold nameOf reqs).shadowedBy s = some w → False := by
-    intro s v w h1 h2
-    obtain ⟨r, hr, e1⟩ := List.mem_map.mp (dom.1 _ _ h1)
-    obtain ⟨r', hr', e2⟩ := List.mem_map.mp (dom.2 _ _ h2)
-    exact hdisj r' hr' r hr (by rw [e1, e2])
+  have noboth := renameFold_noboth env reqs hnd hself
   have hw1 : ∀ s, wShadows (renameFold nameOf reqs) s = (renameFold nameOf reqs).shadows s := by
     intro s
     unfold wShadows
